@@ -46,6 +46,26 @@ func observe(g graph.Graph) dump {
 	return d
 }
 
+// observeRev reads the same observers in the opposite order.
+func observeRev(g graph.Graph) dump {
+	n := g.N()
+	d := dump{n: n}
+	d.nb = make([][]int, n)
+	d.adj = make([][]bool, n)
+	for i := n - 1; i >= 0; i-- {
+		d.adj[i] = make([]bool, n)
+		for j := n - 1; j >= 0; j-- {
+			d.adj[i][j] = g.IsEdge(i, j)
+		}
+	}
+	for i := n - 1; i >= 0; i-- {
+		d.nb[i] = g.Neighbours(i)
+	}
+	d.deg = g.Degrees()
+	d.m = g.M()
+	return d
+}
+
 // String prints the projected form: neighbour lists as sets (sorted).
 func (d dump) String() string {
 	var sb strings.Builder
@@ -135,6 +155,14 @@ func parse(line string) tcase {
 	return c
 }
 
+// scribble overwrites a slice the caller handed to the library (input aliasing: the result must
+// not depend on it any more)
+func scribble(a []int) {
+	for i := range a {
+		a[i] = -1 - 3*a[i]
+	}
+}
+
 func atoi(s string) int {
 	v, err := strconv.Atoi(s)
 	if err != nil {
@@ -221,6 +249,49 @@ func build(rep string, n int, es [][2]int) graph.Graph {
 // set by build when a provenance could not be produced (reported as a bucket)
 var provFallback bool
 
+// construct makes the graph of a constructor / transformation case (used by kind twice).
+func construct(c tcase) graph.Graph {
+	switch c.kind {
+	case "complete":
+		return graph.CompleteGraph(c.arg(0))
+	case "path":
+		return graph.Path(c.arg(0))
+	case "cycle":
+		return graph.Cycle(c.arg(0))
+	case "star":
+		return graph.Star(c.arg(0))
+	case "partite":
+		return graph.CompletePartiteGraph(intsOf(c.toks)...)
+	case "rook":
+		return graph.RookGraph(c.arg(0), c.arg(1))
+	case "flower":
+		return graph.FlowerSnark(c.arg(0))
+	case "hypercube":
+		return graph.HypercubeGraph(c.arg(0))
+	case "folded":
+		return graph.FoldedHypercubeGraph(c.arg(0))
+	case "kneser":
+		return graph.KneserGraph(c.arg(0), c.arg(1))
+	case "bikneser":
+		return graph.BipartiteKneserGraph(c.arg(0), c.arg(1))
+	case "circulant":
+		return graph.CirculantGraph(c.arg(0), intsOf(c.toks)...)
+	case "petersen":
+		return graph.GeneralisedPetersenGraph(c.arg(0), c.arg(1))
+	case "friendship":
+		return graph.FriendshipGraph(c.arg(0))
+	case "newdensenil":
+		return graph.NewDense(c.arg(0), nil)
+	case "newsparsenil":
+		return graph.NewSparse(c.arg(0), nil)
+	case "compdense":
+		return graph.ComplementDense(build(c.args[0], c.arg(1), edgesOf(c.toks)))
+	case "line":
+		return graph.LineGraphDense(build(c.args[0], c.arg(1), edgesOf(c.toks)))
+	}
+	panic("twice: no constructor for " + c.kind)
+}
+
 // ---------------------------------------------------------------- execution of one case
 
 // modes of comparison: full = the dump is determined by the property (definition of the
@@ -231,7 +302,25 @@ func exec(line string) hx.Result {
 	var dumps []dump
 	wfonly := false
 	provFallback = false
-	see := func(g graph.Graph) { dumps = append(dumps, observe(g)) }
+	var extraViol []hx.OracleViolation
+	see := func(g graph.Graph) {
+		d := observe(g)
+		dumps = append(dumps, d)
+		// API call patterns: the observers are called a second time in the opposite order (IsEdge
+		// from the last pair down, Neighbours from the last vertex down, Degrees, M, N) after the
+		// caller has overwritten the slice Degrees() returned (the library's own complement view
+		// overwrites the result of Degrees() of an arbitrary Graph, so that slice is the caller's);
+		// a value of the Graph interface must answer the same
+		if d.n <= 70 && len(extraViol) == 0 {
+			dg := g.Degrees()
+			for i := range dg {
+				dg[i] = -7
+			}
+			if d2 := observeRev(g); d2.String() != d.String() {
+				extraViol = append(extraViol, hx.Fail("C06:observer-order", "second observation in reverse order differs: %s / %s", d.String(), d2.String()))
+			}
+		}
+	}
 	switch c.kind {
 	case "complete":
 		see(graph.CompleteGraph(c.arg(0)))
@@ -242,7 +331,10 @@ func exec(line string) hx.Result {
 	case "star":
 		see(graph.Star(c.arg(0)))
 	case "partite":
-		see(graph.CompletePartiteGraph(intsOf(c.toks)...))
+		nums := intsOf(c.toks)
+		g := graph.CompletePartiteGraph(nums...)
+		scribble(nums)
+		see(g)
 	case "rook":
 		see(graph.RookGraph(c.arg(0), c.arg(1)))
 	case "flower":
@@ -259,9 +351,15 @@ func exec(line string) hx.Result {
 	case "bikneser":
 		see(graph.BipartiteKneserGraph(c.arg(0), c.arg(1)))
 	case "circulant":
-		see(graph.CirculantGraph(c.arg(0), intsOf(c.toks)...))
+		ds := intsOf(c.toks)
+		g := graph.CirculantGraph(c.arg(0), ds...)
+		scribble(ds)
+		see(g)
 	case "circbip":
-		see(graph.CirculantBipartiteGraph(c.arg(0), c.arg(1), intsOf(c.toks)...))
+		ds := intsOf(c.toks)
+		g := graph.CirculantBipartiteGraph(c.arg(0), c.arg(1), ds...)
+		scribble(ds)
+		see(g)
 	case "petersen":
 		see(graph.GeneralisedPetersenGraph(c.arg(0), c.arg(1)))
 	case "friendship":
@@ -287,8 +385,15 @@ func exec(line string) hx.Result {
 	case "newsparse":
 		n := c.arg(0)
 		nbs := make([]sortints.SortedInts, len(c.toks))
+		shared := map[string]sortints.SortedInts{}
 		for i, t := range c.toks {
-			nbs[i] = commaInts(t)
+			// equal lists are passed as one and the same slice (the same slice given twice)
+			if l, ok := shared[t]; ok && len(l) > 0 {
+				nbs[i] = l
+			} else {
+				nbs[i] = commaInts(t)
+				shared[t] = nbs[i]
+			}
 		}
 		g := graph.NewSparse(n, nbs)
 		see(g)
@@ -337,6 +442,32 @@ func exec(line string) hx.Result {
 		see(g)
 	case "big":
 		return execBig(c)
+	case "twice":
+		// result aliasing / hidden package-level state: the same call is made twice and both
+		// results are held; the second result is edited (edge toggled, vertices added, one
+		// removed) through its own methods; the first must still be what it was
+		inner := parse(strings.TrimPrefix(line, "twice "))
+		g1 := construct(inner)
+		see(g1)
+		g2 := construct(inner)
+		if e, ok := g2.(graph.EditableGraph); ok {
+			if e.N() >= 2 {
+				if e.IsEdge(0, 1) {
+					e.RemoveEdge(0, 1)
+				} else {
+					e.AddEdge(0, 1)
+				}
+			}
+			// grow by two vertices and shrink by one: N, M and the adjacency all differ afterwards
+			if e.N() >= 1 {
+				e.AddVertex([]int{0})
+				e.AddVertex([]int{})
+				e.RemoveVertex(0)
+			} else {
+				e.AddVertex([]int{})
+			}
+		}
+		see(g1)
 	case "viewedit":
 		// views are live: built once over an editable base, then observed (with the base) before
 		// and after every edit of the base.  Tokens with ':' are edits, the others edges.
@@ -390,14 +521,21 @@ func exec(line string) hx.Result {
 		}
 	case "prufer":
 		wfonly = true
-		see(graph.PruferDecode(intsOf(c.toks)))
+		code := intsOf(c.toks)
+		g := graph.PruferDecode(code)
+		scribble(code)
+		see(g)
 	case "multicode":
 		wfonly = true
 		b := make([]byte, len(c.toks))
 		for i, v := range intsOf(c.toks) {
 			b[i] = byte(v)
 		}
-		see(graph.MulticodeDecode(b))
+		g := graph.MulticodeDecode(b)
+		for i := range b {
+			b[i] = 0xff
+		}
+		see(g)
 	case "graph6", "sparse6":
 		wfonly = true
 		b := make([]byte, len(c.toks))
@@ -431,6 +569,7 @@ func exec(line string) hx.Result {
 		strs[i] = d.String()
 		res.Viol = append(res.Viol, d.wf()...)
 	}
+	res.Viol = append(res.Viol, extraViol...)
 	last := dumps[len(dumps)-1]
 	res.Nontrivial = last.n >= 2 && last.m >= 1
 	res.Buckets = append(res.Buckets, fmt.Sprintf("N<=%d", bucket(last.n)))
@@ -441,7 +580,11 @@ func exec(line string) hx.Result {
 		}
 		// graph6/sparse6: the model is C08's decoder completed by NewDense resp. NewSparse+AddEdge
 		// (coq/Graph/CtorDecodeModel.v); like the other decoders: projected = verdict and N
-		res.Obs = fmt.Sprintf("%s N=%d ## %s", verdict, last.n, strings.Join(strs, " => "))
+		if last.n <= 70 {
+			res.Obs = fmt.Sprintf("%s N=%d ## %s", verdict, last.n, strings.Join(strs, " => "))
+		} else { // the strict dump of a large graph is too slow in the unary model
+			res.Obs = fmt.Sprintf("%s N=%d", verdict, last.n)
+		}
 	} else {
 		res.Obs = strings.Join(strs, " => ")
 	}
@@ -914,23 +1057,27 @@ func gen(g *hx.Gen) {
 		bigAll("path %d", n)
 		bigAll("cycle %d", n)
 		bigAll("star %d", n)
-		bigAll("circulant %d %s", n, commaList([]int{1, -r.Range(2, n), r.Range(n/2, 2*n), 64}))
+		if n != 255 || g.Thorough() {
+			bigAll("circulant %d %s", n, commaList([]int{1, -r.Range(2, n), r.Range(n/2, 2*n), 64}))
+		}
 	}
 	for _, n := range []int{1000, 1025} {
 		bigSample(n, "path %d", n)
 		bigSample(n, "cycle %d", n)
 		bigSample(n, "star %d", n)
 		bigSample(n, "complete %d", n)
-		bigSample(n, "circulant %d %s", n, commaList([]int{-1, 64, r.Range(2, n)}))
+		if n == 1025 || g.Thorough() {
+			bigSampleN(g.Pick(6, 15), g.Pick(500, 1500), n, "circulant %d %s", n, commaList([]int{-1, 64, r.Range(2, n)}))
+		}
 	}
 	for _, ps := range [][]int{{64, 1}, {1, 64}, {63, 2, 64}, {32, 0, 33}, {128, 128}, {1, 1, 1, 62, 1}} {
 		bigAll("partite %s", commaList(ps))
 	}
-	for d := 6; d <= 8; d++ {
+	for d := 6; d <= g.Pick(7, 8); d++ {
 		bigAll("hypercube %d", d)
 		bigAll("folded %d", d+1)
 	}
-	for _, d := range pickInts([]int{11}, []int{9, 10, 11, 12}) {
+	for _, d := range pickInts([]int{10}, []int{9, 10, 11, 12}) {
 		// Nat.lxor on unary numbers is slow in the extracted model: few rows and pairs
 		bigSampleN(g.Pick(3, 8), g.Pick(300, 1500), 1<<uint(d), "hypercube %d", d)
 		bigSampleN(g.Pick(3, 8), g.Pick(300, 1500), 1<<uint(d-1), "folded %d", d)
@@ -1097,7 +1244,191 @@ func gen(g *hx.Gen) {
 		}
 		emit("graph6;%s", bytesToks(string(b)))
 	}
+	// ================= hardening pass (notes/GENERATOR_DIMENSIONS.md) =================
+	sp := func(a []int) string { return strings.ReplaceAll(hx.Ints(a), ",", " ") }
+	// a graph with a hub (degree n-1), a second vertex of high degree, leaves and m0 further
+	// random edges: degrees on both sides of 32 / 64, very different list lengths
+	hubGraph := func(n, m0 int) [][2]int {
+		var es [][2]int
+		for v := 1; v < n; v++ {
+			es = append(es, [2]int{0, v})
+		}
+		for v := 2; v < n; v += 2 {
+			es = append(es, [2]int{v, 1})
+		}
+		for t := 0; t < m0; t++ {
+			a, b := r.Range(2, n-1), r.Range(2, n-1)
+			if a != b {
+				es = append(es, [2]int{a, b})
+			}
+		}
+		return es
+	}
+	sparseGraph := func(n, m0 int) [][2]int {
+		seen := map[[2]int]bool{}
+		var es [][2]int
+		for len(es) < m0 {
+			a, b := r.Intn(n), r.Intn(n)
+			if a > b {
+				a, b = b, a
+			}
+			if a != b && !seen[[2]int{a, b}] {
+				seen[[2]int{a, b}] = true
+				es = append(es, [2]int{a, b})
+			}
+		}
+		return es
+	}
+	// ---- 1/2: transformations, views, NewDense/NewSparse at n around 32 / 64 (thorough 128);
+	// induced views with |V| from 1 to n over hubs and leaves (list lengths 1 : 64 both ways);
+	// LineGraphDense with 63 / 64 / 65 edges; Contract of hub into leaf and leaf into hub
+	for _, n := range pickInts([]int{33, 64, 65}, []int{31, 32, 33, 63, 64, 65, 66, 129}) {
+		reps2 := []string{"d", "s", provEditable[r.Intn(len(provEditable))], provViews[r.Intn(len(provViews))]}
+		if n > 70 {
+			reps2 = []string{"s", "sp"}
+		}
+		hub := edgeToks(hubGraph(n, n/2))
+		for _, rep := range reps2 {
+			emit("compdense %s %d;%s", rep, n, hub)
+			emit("compview %s %d;%s", rep, n, hub)
+			for _, k := range []int{1, 2, n / 2, n - 1, n} {
+				emit("indview %s %d %s;%s", rep, n, commaList(r.Perm(n)[:k]), hub)
+			}
+			emit("indview %s %d %s;%s", rep, n, commaList([]int{0, n - 1}), hub)
+			for _, m0 := range []int{63, 64, 65} {
+				emit("line %s %d;%s", rep, n, edgeToks(sparseGraph(n, m0)))
+			}
+		}
+		for _, rep := range reps2[:min2(3, len(reps2))] {
+			if rep[0] == 'v' {
+				continue
+			}
+			emit("split %s %d %d %d;%s", rep, n, 0, n-1, hub)
+			emit("split %s %d %d %d;%s", rep, n, n-1, n-2, hub)
+			emit("contract %s %d %d %d;%s", rep, n, 0, n-1, hub)
+			emit("contract %s %d %d %d;%s", rep, n, n-1, 0, hub)
+			emit("contract %s %d %d %d;%s", rep, n, 1, 0, hub)
+			emit("consplit %s %d %d %d %d %d;%s", rep, n, 1, 0, n-2, 0, hub)
+		}
+		if n <= 70 {
+			b := make([]int, tri(n))
+			for i := range b { // full byte range
+				b[i] = []int{0, 0, 1, 0x7f, 0x80, 0xff, r.Intn(256)}[r.Intn(7)]
+			}
+			emit("newdense %d;%s", n, sp(b))
+		}
+		emit("newsparse %d;%s", n, sparseToks(r, n, hubGraph(n, n), true))
+	}
+	// ---- 1/3/12: decoders at the header boundary n = 62 | 63 and beyond; non-canonical but legal
+	// size headers (4- and 8-byte forms for a small n), the optional ">>graph6<<" / ">>sparse6<<"
+	// prefixes, bytes outside 63..126 (error on both sides); Pruefer and Multicode at n around
+	// 64 / 128 / 256 (multicode bytes >= 0x80)
+	hdr := func(n, form int) []byte {
+		switch form {
+		case 4:
+			return []byte{126, byte(63 + (n>>12)&63), byte(63 + (n>>6)&63), byte(63 + n&63)}
+		case 8:
+			return []byte{126, 126, 63, 63, 63, byte(63 + (n>>12)&63), byte(63 + (n>>6)&63), byte(63 + n&63)}
+		}
+		return []byte{byte(63 + n)}
+	}
+	for _, n := range pickInts([]int{62, 63, 64, 65}, []int{61, 62, 63, 64, 65, 66, 127, 128, 129}) {
+		for _, es := range [][][2]int{hubGraph(n, n), sparseGraph(n, 40), nil} {
+			d := build("s", n, es)
+			emit("graph6;%s", bytesToks(graph.Graph6Encode(d)))
+			emit("sparse6;%s", bytesToks(graph.Sparse6Encode(d)))
+		}
+	}
+	for _, n := range []int{127, 128, 129, 255, 256, 257} { // sparse only: cheap in the model
+		emit("sparse6;%s", bytesToks(graph.Sparse6Encode(build("s", n, sparseGraph(n, 50)))))
+	}
+	for k := 0; k < g.Pick(40, 600); k++ {
+		n := r.Range(0, 9)
+		es := randomEdges(r, n)
+		d := build("d", n, es)
+		g6 := graph.Graph6Encode(d)
+		s6 := graph.Sparse6Encode(d)
+		form := []int{4, 8}[k%2]
+		if n <= 62 && len(g6) >= 1 {
+			emit("graph6;%s", bytesToks(string(hdr(n, form))+g6[1:]))
+			emit("graph6;%s", bytesToks(">>graph6<<"+g6))
+			emit("sparse6;%s", bytesToks(":"+string(hdr(n, form))+s6[2:]))
+			emit("sparse6;%s", bytesToks(">>sparse6<<"+s6))
+		}
+		// one byte outside the alphabet somewhere
+		bad := []byte{0, 10, 58, 62, 127, 128, 255}[r.Intn(7)]
+		b6 := []byte(g6)
+		b6[r.Intn(len(b6))] = bad
+		emit("graph6;%s", bytesToks(string(b6)))
+		bs := []byte(s6)
+		bs[1+r.Intn(len(bs)-1)] = bad
+		emit("sparse6;%s", bytesToks(string(bs)))
+	}
+	for _, n := range pickInts([]int{64, 65, 129, 257}, []int{63, 64, 65, 127, 128, 129, 255, 256, 257}) {
+		code := make([]int, n-2)
+		for i := range code {
+			code[i] = []int{0, n - 1, r.Intn(n), r.Intn(n)}[r.Intn(4)]
+		}
+		emit("prufer;%s", sp(code))
+	}
+	for _, n := range pickInts([]int{128, 255}, []int{127, 128, 129, 200, 254, 255}) {
+		es := sparseGraph(n, 60)
+		for v := 1; v < n; v++ { // a spanning path keeps every vertex reachable
+			es = append(es, [2]int{v - 1, v})
+		}
+		emit("multicode;%s", sp(multicodeOf(n, cleanPairs(es))))
+	}
+	// ---- 3: differences far outside [-n, n]: around 2^31, 2^32, 2^40 (no int overflow)
+	for _, n := range []int{1, 2, 7, 10} {
+		for _, v := range []int{1 << 31, -(1 << 31) - 1, 1<<32 + 3, -(1 << 40) + 1, 1<<40 + 5} {
+			emit("circulant %d;%d", n, v)
+			emit("circulant %d;1 %d", n, v)
+			emit("circbip %d %d;%d", n, n+1, v)
+		}
+	}
+	// ---- 6/8: the same call twice, both results held, the second edited
+	for _, c := range []string{"complete 5;", "path 6;", "cycle 5;", "star 4;", "partite;2 1 2", "rook 2 3;", "flower 3;",
+		"hypercube 3;", "folded 3;", "kneser 5 2;", "bikneser 4 1;", "circulant 7;1 3", "petersen 5 2;", "friendship 3;",
+		"newdensenil 4;", "newsparsenil 4;", "complete 0;", "complete 1;"} {
+		emit("twice %s", c)
+	}
+	for k := 0; k < g.Pick(40, 600); k++ {
+		n := r.Range(2, 7)
+		allreps := append(append([]string{"d", "s", "c", "i"}, provEditable...), provViews...)
+		rep := allreps[r.Intn(len(allreps))]
+		emit("twice %s %s %d;%s", []string{"compdense", "line"}[k%2], rep, n, edgeToks(randomEdges(r, n)))
+	}
+	// ---- 5: one object through long histories, sizes going up and down
+	for k := 0; k < g.Pick(30, 500); k++ {
+		n := r.Range(2, 6)
+		viewedit(provEditable[r.Intn(len(provEditable))], n, randomEdges(r, n), r.Range(8, 16))
+		viewedit(reps[k%2], n, randomEdges(r, n), r.Range(8, 16))
+	}
 	_ = big
+}
+
+func min2(a, b int) int {
+	if a < b {
+		return a
+	}
+	return b
+}
+
+// cleanPairs removes repeated edges (either orientation).
+func cleanPairs(es [][2]int) [][2]int {
+	seen := map[[2]int]bool{}
+	var out [][2]int
+	for _, e := range es {
+		a, b := e[0], e[1]
+		if a > b {
+			a, b = b, a
+		}
+		if a != b && !seen[[2]int{a, b}] {
+			seen[[2]int{a, b}] = true
+			out = append(out, [2]int{a, b})
+		}
+	}
+	return out
 }
 
 func main() {
